@@ -4,7 +4,7 @@ ENGINES = [
     {
         "name": "vloop",
         "path": "vf/engine/vloop.py vf/engine/explore.py vf/engine/netsim.py",
-        "serves_properties": ["C04", "C05", "C06", "C07", "C08", "C09", "C19"],
+        "serves_properties": ["C04", "C05", "C06", "C07", "C08", "C09", "C10", "C19"],
         "kind_free_text": "stateless model checker for asyncio code: virtual-time BaseEventLoop stepped by hand, "
         "deviation-bounded exhaustive DFS over environment choices (segment delivery, timers, EOF/RST, cancel), "
         "replay of choice prefixes on fresh objects",
@@ -170,6 +170,22 @@ CHECKS = [
         "note": "Trusted: python logging/queue, zstandard/gzip, str(PenlogRecord) as rendering of one record, the reference model. Admitted sets: trace in "
         "stacktrace field or appended to text; head/tail count before or after the filter; errors for positive offsets >= len and out-of-range seeks. "
         "Not covered: sequences longer than N with full attribute products, cursed-hr, colour output, concurrent handlers.",
+    },    {
+        "id": "C10",
+        "engine": "vloop",
+        "level": "model_checking",
+        "technique": "exhaustive enumeration of table-driven ECU models x scanner configurations; the real ServicesScanner / ScanIdentifiers entry_point() run on each under a virtual-time event loop and are compared with the scanner semantics computed from the model table",
+        "text": "Service scan: 7 vendor / response-id services each meet every (availability profile over sessions {1,2,3} x answer behaviour) combination "
+        "(63 each: positive on exactly one probe length, 0x31, 0x33, 0x13 only, silent, positive on an unprobed length), ISO services 0x22/0x3E/0x31/0x85 every "
+        "profile x well-formed behaviour, packed 11 per model (thorough: plus a cross product on two services), x 6 configurations (session lists incl. none "
+        "and an unavailable session, skip maps incl. bare session key, response ids, check-session, reset). Checked: reported services are implemented in "
+        "that session; every implemented service that answers a probe meaningfully is reported; every service id 0x00-0xFF (response ids only on request) "
+        "is probed while the ECU is in the claimed session; skipped ids are never sent; exit code. Identifier scan: all subsets of a 6-identifier universe "
+        "straddling a byte boundary per session x service {0x22, 0x27, 0x2E, 0x31} x start/end windows x skip x check-session x payload: the 'Positive "
+        "replies' counter equals the number of identifiers (x 3 sub-functions for 0x31, 7-bit limit for 0x27) in range answered positively, every probe "
+        "PDU has the right layout and arrives in the claimed session, nothing outside the range or in the skip list is sent.",
+        "note": "Trusted: model ECUs, vloop, benign reply timing. Services are assumed to be probed independently (packing). Counters are read from the "
+        "RESULT log lines. Not covered: hooks, power cycling, more than 3 sessions.",
     },
 ]
 
